@@ -10,7 +10,7 @@ def build(ctx):
 
 
 def bounded(ctx):
-    common.suites(ctx, ['cedge', 'mix', 'dist', 'far', 'val', 'li', 'pseudo', 'align', 'data'], {'accept'})
+    common.suites(ctx, ['cedge', 'mix', 'dist', 'far', 'val', 'li', 'pseudo', 'align', 'data', 'rand'], {'accept'})
     ctx.task('bounded.tasks:stale_task', ['accept'])
 
 
